@@ -11,7 +11,8 @@ Import ListNotations.
 Definition C35_full_statement : Prop :=
   forall (reachable : lstate -> Prop) (st : lstate), reachable st -> ~ deadlocked st.
 
-(* general lock-order theorem: any number of threads and locks (shared or exclusive holders) *)
+(* general lock-order theorem: any number of threads and locks, shared / exclusive / try modes, queued
+   writers blocking new readers *)
 Definition C35_ranked_no_deadlock_statement : Prop :=
   forall (rank : lock -> nat) (st : lstate), rank_increasing rank st -> ~ deadlocked st.
 Theorem C35_ranked_no_deadlock : C35_ranked_no_deadlock_statement.
@@ -19,17 +20,29 @@ Proof. exact ranked_no_deadlock. Qed.
 Print Assumptions C35_ranked_no_deadlock.
 
 (* certificate theorem used on the observed patterns: rank-increasing, or taken under the (exclusive)
-   gate lock for a lock that is only ever held under the gate; never re-entrant *)
+   gate lock for a lock that is only ever held under the gate (and, for a read request, whose write requests are
+   all made under the gate); never re-entrant; try-acquisitions never wait *)
 Definition C35_observed_patterns_partial_statement : Prop :=
   forall (pats : list pattern) (rank : lock -> nat) (g : lock) (st : lstate),
-    check pats rank g = true -> conforms pats st -> gate_exclusive g st -> ~ deadlocked st.
+    check pats rank g = true -> conforms pats st -> gate_exclusive g st ->
+    (forall t l, want (st t) <> Some (l, MTry)) ->
+    ~ deadlocked st.
 Theorem C35_observed_patterns_partial : C35_observed_patterns_partial_statement.
 Proof. exact checked_no_deadlock. Qed.
 Print Assumptions C35_observed_patterns_partial.
 
 (* the semantics is not vacuous: a lock-order inversion is a deadlock and is rejected by the check *)
 Definition C35_inversion_detected_statement : Prop :=
-  deadlocked abba_state /\ forall rank, check [([1], 2); ([2], 1)] rank 0 = false.
+  deadlocked abba_state /\ forall rank, check [([(1, MW)], (2, MW)); ([(2, MW)], (1, MW))] rank 0 = false.
 Theorem C35_inversion_detected : C35_inversion_detected_statement.
 Proof. exact (conj abba_deadlocked abba_rejected). Qed.
 Print Assumptions C35_inversion_detected.
+
+(* read/write modes: a second read guard requested by a thread that already holds one deadlocks as soon as
+   a writer waits (std's writer-preferring RwLock), and every pattern of this shape is rejected by the check;
+   two different threads reading do not block each other *)
+Definition C35_reentrant_read_detected_statement : Prop :=
+  deadlocked reentrant_read_state /\ forall rank g, check [([(1, MR)], (1, MR))] rank g = false.
+Theorem C35_reentrant_read_detected : C35_reentrant_read_detected_statement.
+Proof. exact (conj reentrant_read_deadlocked reentrant_read_rejected). Qed.
+Print Assumptions C35_reentrant_read_detected.
